@@ -20,7 +20,7 @@ func init() {
 			"D3 at least one location — every Package allocated in code reachable from an extractor's Extract gets a non-empty Locations value at allocation or through a later store in the same function; " +
 			"D4 field-by-field conversion — packageToProto, purlToProto, layerDetailsToProto, sourceCodeIdentifierToProto, qualifiersToProto read every field of their source struct and store each into the like-named destination field; ToCDX and ToSPDX23 write ToPURL(pkg).String() of the same package and ToCDX copies name, version and every location; " +
 			"D5 the package index is keyed by the package URL's own type and name (rule shared with C20-D4); D6 panic discipline (bounds prover, no single-value assertions outside Metadata) over purl, packageindex, converter and binary/proto (generated files excluded). " +
-			"NOT decided: non-empty names (values), percent-encoding round trip (third-party packageurl-go), SPDX/CDX library behaviour, whether SBOM formats carry locations/layer details verbatim.",
+			"Added in round 3: D7 the formats' audited omissions (empty name/version) are shared from C03. NOT decided: non-empty names (values), percent-encoding round trip (third-party packageurl-go), SPDX/CDX library behaviour, whether SBOM formats carry locations/layer details verbatim.",
 		ThoroughGOOS: []string{"linux", "windows", "darwin"},
 		Run:          runC14,
 		Controls: []Mutant{
